@@ -61,6 +61,9 @@ func (o *DeployOptions) Validate() error {
 	if o.Name == "" {
 		return ErrEmptyAppName
 	}
+	if !IsPathElement(o.Name) {
+		return ErrNameIsNotAPathElement
+	}
 	if o.Podname == "" {
 		return ErrEmptyPodName
 	}
@@ -201,6 +204,9 @@ type AddNodeOptions struct {
 func (o *AddNodeOptions) Validate() error {
 	if o.Nodename == "" {
 		return ErrEmptyNodeName
+	}
+	if !IsPathElement(o.Nodename) {
+		return ErrNameIsNotAPathElement
 	}
 	if o.Podname == "" {
 		return ErrEmptyPodName
